@@ -245,12 +245,15 @@ impl<U: TimeUnitTrait> DateTime<U> {
             if dm < 0 {
                 unimplemented!("not support year before ce or negative month")
             }
+            // months are counted from zero so that a period of `dm` months starts in January
             let dt_month = if flag {
-                (dt_year * 12 + dt.month()) as i32
+                (dt_year * 12 + dt.month0()) as i32
             } else {
-                dt_year as i32 * (-12) + dt.month() as i32
+                dt_year as i32 * (-12) + dt.month0() as i32
             };
             let delta_down = dt_month % dm;
+            // first instant of the current month, then back to the month that starts the period
+            dt = dt.with_day(1).unwrap().with_time(NaiveTime::MIN).unwrap();
             dt = match delta_down.cmp(&0) {
                 Ordering::Equal => dt,
                 Ordering::Greater => dt - Months::new(delta_down as u32),
